@@ -39,6 +39,7 @@ import RoProofs.MultiSample
 import RoProofs.MultiRace
 import RoProofs.MultiMerge
 import RoProofs.MultiOrder
+import RoModel.Multi.Micro
 namespace Ro.C05a
 open Ro Ro.Multi
 
@@ -183,6 +184,33 @@ theorem skipUntil_signal_error_witness :
     Spec.skipUntil true false (heard2 (eventsOf (Sources.hot wScriptsSkip) [0, 1, 0])) = [.error (wc 1) (.user 2)] := by
   decide
 
+/-! ## TakeUntil under true concurrency: the flag window
+
+DESIGN.md 5/C05 asks, for sources driven by different goroutines, that the output be the definition's
+output for SOME arrival order compatible with each source's own order. For TakeUntil this fails: the
+signal's callback is two atomic actions (raise the flag, then complete the destination); in between,
+the source's next value is skipped and its error is delivered — `N11, E` is the output for no arrival
+order. (SkipUntil and ThrottleWhen touch one atomic flag only; the free-running search found no such
+run for them, nor for Merge, Race, SampleWhen.) -/
+
+/-- all schedules over two threads of length ≤ n -/
+def ordersUpTo : Nat → List (List Nat)
+  | 0 => [[]]
+  | n + 1 => [] :: (ordersUpTo n).flatMap (fun o => [0 :: o, 1 :: o])
+
+def wSrc : List (Notif Int) := [.next (wc 1) 11, .next (wc 2) 12, .error (wc 3) (.user 1)]
+def wSig : List (Notif Int) := [.next (wc 1) 21]
+
+/-- WITNESS (replayed on the real code by `kind=multipark`): schedule
+    source N11 · signal Store(ready) · source N12 (skipped) · source E1 (delivered) · signal Complete (refused)
+    delivers `N11, E1`; no interleaving of the two scripts (no schedule of whole notifications, of any length
+    up to 5 — the scripts have 4 notifications) makes TakeUntil deliver that. -/
+theorem takeUntil_concurrent_window_witness :
+    Micro.takeUntilMicro wSrc wSig [0, 1, 0, 0, 1] = [.next (wc 1) 11, .error (wc 3) (.user 1)] ∧
+    (ordersUpTo 5).all (fun o =>
+      (runMulti takeUntilM (Sources.hot [wSrc, wSig]) { marks := [7] } o).out != [.next (wc 1) 11, .error (wc 3) (.user 1)]) = true := by
+  decide
+
 /-! ## SampleWhen / ThrottleWhen -/
 
 theorem sampleWhen (scripts : List (List (Notif α))) (sub : Ctx) (order : List Nat) :
@@ -259,6 +287,7 @@ end Ro.C05a
 #print axioms Ro.C05a.takeUntil_impl
 #print axioms Ro.C05a.takeUntil_partial
 #print axioms Ro.C05a.takeUntil_signal_error_witness
+#print axioms Ro.C05a.takeUntil_concurrent_window_witness
 #print axioms Ro.C05a.skipUntil_impl
 #print axioms Ro.C05a.skipUntil_partial
 #print axioms Ro.C05a.skipUntil_signal_error_witness
